@@ -5,6 +5,17 @@ Only documented attributes are read; nothing is guessed.
 from .common import fmt_float, ord2
 
 
+import contextlib
+import io
+
+
+@contextlib.contextmanager
+def quiet():
+    """The library prints diagnostics on some error paths; keep check output clean."""
+    with contextlib.redirect_stdout(io.StringIO()):
+        yield
+
+
 def outcome_of(exc):
     return "exc:" + type(exc).__name__
 
@@ -42,7 +53,8 @@ def run_read(text):
     """read_cgsmiles(text) -> observation (logged at the call's return or exception)."""
     from cgsmiles import read_cgsmiles
     try:
-        g = read_cgsmiles(text)
+        with quiet():
+            g = read_cgsmiles(text)
     except Exception as exc:  # the outcome is part of the observation
         return empty_obs(outcome_of(exc)), None
     return project_cg_graph(g), g
